@@ -5,6 +5,7 @@
    enabled (e.g. a handed-out buffer is only used by the thread that got it from a hit,
    a log is only appended to after publication) and every GetSegment must hit exactly
    when the real cache did. *)
+From Coq Require Import String.
 From KS Require Import lib.Base lib.Strings model.Cache model.Lockset.
 Open Scope Z_scope.
 
@@ -28,3 +29,14 @@ Fixpoint check_from (s : state) (evs : list (Z * act * option bool)) : bool :=
   end.
 
 Definition check_case (k : case) : bool := check_from (init (k_cap k)) (k_evs k).
+
+(* field lists obtained by reflection from the real structs vs the model's field table:
+   same names, nothing missing on either side, and no field annotated GUnguarded *)
+Record fcase := mkF { f_struct : string; f_fields : list string }.
+
+Definition smem (x : string) (l : list string) : bool := existsb (String.eqb x) l.
+
+Definition check_fields (c : fcase) : bool :=
+  let ann := fields_of (f_struct c) in
+  forallb (fun f => smem f ann) (f_fields c) && forallb (fun f => smem f (f_fields c)) ann &&
+  negb (match ann with [] => true | _ => false end).
